@@ -18,6 +18,14 @@ def force_repo_first():
 
     if not pDESy.__file__.startswith(REPO + "/"):
         raise RuntimeError("import shadow: pDESy imported from %s" % pDESy.__file__)
+    # import every model module now (outside any traced path: plotly/scipy imports cost seconds under tracing)
+    import importlib
+
+    for m in ("base_project", "base_workflow", "base_task", "base_subproject_task", "base_product", "base_component",
+              "base_organization", "base_team", "base_worker", "base_workplace", "base_facility", "base_priority_rule"):
+        mod = importlib.import_module("pDESy.model." + m)
+        if not mod.__file__.startswith(REPO + "/"):
+            raise RuntimeError("import shadow: %s imported from %s" % (m, mod.__file__))
 
 
 def configure():
